@@ -137,6 +137,7 @@ type Summary struct {
 	Prop        string             `json:"prop"`
 	Runs        int                `json:"runs"`
 	Skipped     int                `json:"skipped"`
+	Abandoned   int                `json:"abandoned"`
 	Nontrivial  int                `json:"nontrivial"`
 	Steps       int64              `json:"steps"`
 	Switches    int64              `json:"switches"`
@@ -174,6 +175,11 @@ func envInt(name string, def int64) int64 {
 	return n
 }
 
+// abandonAfter: a single run that takes longer than this of real time is given up
+// (skipped, inconclusive).  runStarted is real time because the watchdog runs
+// outside every bubble.
+var abandonAfter = 75 * time.Second
+
 var progress atomic.Int64
 var curTape atomic.Pointer[rt.Tape]
 
@@ -184,6 +190,9 @@ func watchdog(limit time.Duration, dump string) {
 	lastChange := time.Now()
 	for {
 		time.Sleep(500 * time.Millisecond)
+		if st := runStarted.Load(); st != 0 && time.Since(time.Unix(0, st)) > abandonAfter {
+			rt.Abandon.Store(true)
+		}
 		p := progress.Load() + rt.GlobalSteps.Load()
 		if p != last {
 			last, lastChange = p, time.Now()
@@ -209,8 +218,13 @@ type runResult struct {
 }
 
 // runOne executes one simulated run in a fresh bubble.
+var runStarted atomic.Int64 // unix nanoseconds (real time) at which the current run began; 0 = none
+
 func runOne(t *testing.T, p *Prop, tape *rt.Tape, tier string, detail bool, idx uint64) (res runResult) {
 	curTape.Store(tape)
+	rt.Abandon.Store(false)
+	runStarted.Store(time.Now().UnixNano())
+	defer runStarted.Store(0)
 	ctx := &Ctx{T: tape, Tier: tier, Detail: detail, RunIdx: idx}
 	defer func() {
 		if ctx.tmp != "" {
@@ -243,6 +257,12 @@ func runOne(t *testing.T, p *Prop, tape *rt.Tape, tier string, detail bool, idx 
 			res.infra = "run produced no outcome"
 		}
 		return
+	}
+	for _, s := range ctx.sims {
+		if s.WasAbandoned {
+			res.out = &Outcome{Skip: "abandoned: the run took more than the real-time allowance (inconclusive)"}
+			return
+		}
 	}
 	o := res.out
 	h := fnv.New64a()
@@ -390,6 +410,9 @@ func explore(t *testing.T, p *Prop, tier string) {
 		o := r.out
 		if o.Skip != "" {
 			sum.Skipped++
+			if strings.HasPrefix(o.Skip, "abandoned") {
+				sum.Abandoned++
+			}
 			continue
 		}
 		sum.Runs++
